@@ -93,6 +93,7 @@ def make_corpus(tier, seed):
         corpus.append(c)
     corpus.extend(arith_programs())
     corpus.extend(owner_and_item_programs())
+    corpus.extend(diamond_programs())
     return corpus
 
 
@@ -134,6 +135,36 @@ def owner_and_item_programs():
 
 BIG = [2 ** 53 + 1, (2 ** 53 + 1) * 3, 6, 10 ** 400, 10 ** 398, -(2 ** 63), 2 ** 64 + 1, 3, 0, 7.0, 0.1, 1e308, True]
 ARITH_OPS = ["+", "-", "*", "/", "//", "%", "<", ">="]
+
+
+def diamond_programs():
+    """y = f(x);  z = W(y) (op) x  or  x (op) W(y)  for every wrapper node class W; then x is assigned.  z's task and y's
+    task both start from x: only the ordering edge y -> z (made from z's reported dependencies) keeps z from being
+    computed before y - if it is missing, the order follows set iteration (hash seed, build)"""
+    x, y, z = W.NUM_LEAVES[0], W.NUM_LEAVES[1], W.NUM_LEAVES[2]
+    lx, ly = W.ast_loc(x), W.ast_loc(y)
+    F = lambda k: W.ast_loc(W.L("F", W.I(k)))
+    wrappers = {
+        "abs": ["bi", "abs", ly, []], "round": ["bi", "round", ly, [E.lit(1)]], "neg": ["un", "-", ly],
+        "call": ["call", F("sq"), [ly], []], "call-kw": ["call", F("scale"), [ly], [["k", E.lit(3)]]],
+        "real": ["cattr", ["bin", "*", ly, E.lit(2)], E.lit("real")], "divmod0": ["item", ["bi", "divmod", ly, [E.lit(7)]], E.lit(0)],
+        "mul": ["bin", "*", ly, E.lit(3)], "pow": ["bin", "**", ly, E.lit(2)],
+    }
+    out = []
+    ini = {E.loc_str(k): E.enc(v) for k, v in zip(W.NUM_LEAVES + [W.IDX_LEAF, W.KEY_LEAF], [2.0, 0.0, 0.0] + [1.0] * (len(W.NUM_LEAVES) - 3) + [0, "p"])}
+    for wn, wast in wrappers.items():
+        for first in (True, False):
+            for op in ("+", "-"):
+                zdef = ["bin", op, wast, lx] if first else ["bin", op, lx, wast]
+                for ydef_first in (True, False):
+                    defs = [{"op": "sete", "loc": W.json_loc(y), "ast": ["bin", "*", lx, E.lit(2.0)]},
+                            {"op": "sete", "loc": W.json_loc(z), "ast": zdef}]
+                    if not ydef_first:
+                        defs = [{"op": "setv", "loc": W.json_loc(y), "v": E.enc(4.0)}, defs[1], defs[0]]
+                    ops = defs + [{"op": "setv", "loc": W.json_loc(x), "v": E.enc(-3.0)},
+                                  {"op": "setv", "loc": W.json_loc(x), "v": E.enc(5.5)}]
+                    out.append({"kind": "history", "init": ini, "ops": ops, "family": "diamond:" + wn})
+    return out
 
 
 def arith_programs():
@@ -208,7 +239,8 @@ def _mk_key(spec):
 def state_of(real):
     from checks.c03 import support, INDICES
     return {"contents": repr(W.canon_roots(real.roots)),
-            "dump": sorted([E.norm_zero_text(a), E.norm_zero_text(b)] for a, b in real.m.dump()),
+            # the dumped text in the order dump() lists it (registration order of the definitions, which a program fixes)
+            "dump": [[E.norm_zero_text(a), E.norm_zero_text(b)] for a, b in real.m.dump()],
             "indices": {nm: sorted((k, sorted(v)) for k, v in support(getattr(real.m, nm)).items()) for nm in INDICES}}
 
 
